@@ -340,7 +340,7 @@ func (ck *Check) proveLemmas() {
 		if !use {
 			continue
 		}
-		x := NewExec(P, nil, &Contract{Fn: "lemma." + n, Allocs: -1})
+		x := NewExec(P, nil, &Contract{Fn: "lemma." + n, Allocs: -1, Props: lm.Props})
 		x.fname = "lemma." + n
 		st := &State{heaps: map[string]Term{}, names: map[string]Val{}, entry: &Snapshot{heaps: map[string]Term{}, names: map[string]Val{}}}
 		var goal Term
@@ -355,6 +355,18 @@ func (ck *Check) proveLemmas() {
 				}
 			}()
 			env := &Env{x: x, st: st, vars: map[string]Val{}}
+			if sp := P.findPkg(lm.Pkg); sp != nil {
+				env.pkg = sp.Pkg
+				x.pkg = sp.Pkg
+			}
+			// lemma parameters are arbitrary (well-formed) values
+			x.instDepth = 2
+			for i, v := range lm.Vars {
+				ty := x.parseType(lm.VTypes[i], nil)
+				val := Val{T: x.fresh("lp!"+v, P.sortOf(ty)), Ty: ty}
+				st.assume(x.wf(val.T, ty))
+				env.vars[v] = val
+			}
 			goal = x.trBool(env, lm.Body)
 		}()
 		if goal.IsZero() {
